@@ -8,6 +8,7 @@ package vh
 import (
 	"fmt"
 	"sort"
+	"sync"
 	"testing"
 	"testing/synctest"
 	"time"
@@ -63,18 +64,48 @@ func c20Property(t *rapid.T, st *Stats) {
 	preActive := map[string]int{}
 	hookErr := ""
 	gateNext := map[string]bool{}
+	gatePreNext := map[string]bool{}
 	gates := []chan struct{}{}
 	inflight := 0 // explicit Delete/DeleteAll goroutines not yet returned
+	var hmu sync.Mutex
+	releaseAll := func() {
+		for {
+			hmu.Lock()
+			for k := range gateNext {
+				delete(gateNext, k)
+			}
+			for k := range gatePreNext {
+				delete(gatePreNext, k)
+			}
+			n := len(gates)
+			for _, g := range gates {
+				close(g)
+			}
+			gates = nil
+			hmu.Unlock()
+			if n == 0 {
+				return
+			}
+			synctest.Wait()
+		}
+	}
+	defer releaseAll() // also on a failing case: the bubble cannot end with parked goroutines
 	results := make(chan string, 64)
 	opts := cache.Opts[string, int]{Age: age, Count: count}
 	if withFn {
+		// the hooks run on prune goroutines, several of which can be active at once: hmu guards the harness state
+		// they share (never held while parked on a gate)
 		opts.PruneFn = func(k string, v int) error {
+			hmu.Lock()
 			if gateNext[k] {
 				delete(gateNext, k)
 				g := make(chan struct{})
 				gates = append(gates, g)
+				hmu.Unlock()
 				<-g
+				hmu.Lock()
 			}
+			defer hmu.Unlock()
 			le := c20Ledger{key: k, val: v, ok: !failing[k], async: preActive[k] > 0, at: time.Now(), size: len(live)}
 			ledger = append(ledger, le)
 			if failing[k] {
@@ -82,8 +113,23 @@ func c20Property(t *rapid.T, st *Stats) {
 			}
 			return nil
 		}
-		opts.PrunePreFn = func(k string, v int) { preActive[k]++ }
+		opts.PrunePreFn = func(k string, v int) {
+			// a gated pre hook models a value whose own lock is held by a user at the moment the prune wants it
+			hmu.Lock()
+			if gatePreNext[k] {
+				delete(gatePreNext, k)
+				g := make(chan struct{})
+				gates = append(gates, g)
+				hmu.Unlock()
+				<-g
+				hmu.Lock()
+			}
+			preActive[k]++
+			hmu.Unlock()
+		}
 		opts.PrunePostFn = func(k string, v int) {
+			hmu.Lock()
+			defer hmu.Unlock()
 			preActive[k]--
 			if preActive[k] < 0 {
 				hookErr = fmt.Sprintf("Post hook for %s without a Pre hook", k)
@@ -92,6 +138,9 @@ func c20Property(t *rapid.T, st *Stats) {
 	}
 	c := cache.New[string, int](opts)
 	next := 0
+	// countPruneMayRun: a count-triggered prune was started and may not have finished yet (it can be parked in a gated
+	// pre hook across several operations); what it evicts is not an age expiry
+	countPruneMayRun := false
 	seenLedger := 0
 	bumped := map[int]bool{}
 	// observe compares membership with the model and judges every new ledger entry
@@ -113,7 +162,7 @@ func c20Property(t *rapid.T, st *Stats) {
 			}
 			if le.async {
 				// (3) never expire an entry that was used within Age, unless the count limit forces the eviction
-				if age > 0 && le.at.Sub(i.lastUse) < age && (count == 0 || le.size <= count) {
+				if age > 0 && le.at.Sub(i.lastUse) < age && (count == 0 || (le.size <= count && !countPruneMayRun)) {
 					fail("expired-too-early", "after %s: asynchronous cleanup of %s=%d ran %v after its last use (Age %v, size %d, Count %d)", after, le.key, le.val, le.at.Sub(i.lastUse), age, le.size, count)
 				}
 			}
@@ -173,6 +222,9 @@ func c20Property(t *rapid.T, st *Stats) {
 			break
 		}
 		observe(after)
+		if len(gates) == 0 && len(gatePreNext) == 0 {
+			countPruneMayRun = false // everything that was started has run to completion
+		}
 	}
 	t.Repeat(map[string]func(*rapid.T){
 		"set": func(t *rapid.T) {
@@ -192,6 +244,9 @@ func c20Property(t *rapid.T, st *Stats) {
 			live[k] = i
 			if len(gates) > 0 {
 				classes["gated-across-op"] = true
+			}
+			if count > 0 && len(live) > count {
+				countPruneMayRun = true
 			}
 			c.Set(k, next)
 			time.Sleep(time.Millisecond)
@@ -293,6 +348,19 @@ func c20Property(t *rapid.T, st *Stats) {
 			gates = append(gates[:j], gates[j+1:]...)
 			settle("release")
 		},
+		"gatePre": func(t *rapid.T) {
+			// the next asynchronous prune of this key has to wait in its pre hook until the gate is released
+			if !withFn || age == 0 {
+				t.Skip("no asynchronous age pruning")
+			}
+			k := rapid.SampledFrom(keys).Draw(t, "k")
+			if live[k] == nil {
+				t.Skip("no such entry")
+			}
+			gatePreNext[k] = true
+			classes["gated-pre-hook"] = true
+			trace = append(trace, "gate the pre hook of the next prune of "+k)
+		},
 		"toggleFail": func(t *rapid.T) {
 			k := rapid.SampledFrom(keys).Draw(t, "k")
 			failing[k] = !failing[k]
@@ -314,11 +382,8 @@ func c20Property(t *rapid.T, st *Stats) {
 		},
 		"": func(*rapid.T) {},
 	})
-	// let everything finish before the bubble ends
-	for _, g := range gates {
-		close(g)
-	}
-	gates = nil
+	// let everything finish before the bubble ends (a released callback can run into the next armed gate)
+	releaseAll()
 	settle("end")
 	failing = map[string]bool{}
 	_ = c.DeleteAll()
